@@ -231,3 +231,21 @@ def _sum_dominates(c):
 
 Lemma(['C12', 'C10', 'C05'], 'sum_dominates', _sum_dominates,
       doc='a sum of non-negative terms is non-negative and at least each of its terms (induction): justifies Ctx.sum_dominates')
+
+
+def _incr_bijection(c):
+    """an increasing map of {0..n-1} into itself is the identity (two inductions): the sorting permutation of a strictly
+    increasing array is the identity -- the fact offered by the argsort model for already sorted input"""
+    p = z3.Function('p', z3.IntSort(), z3.IntSort())
+    n, m, q, r = z3.Ints('n m q r')
+    rng = z3.ForAll([q], z3.Implies(z3.And(0 <= q, q < n), z3.And(0 <= p(q), p(q) < n)))
+    mono = z3.ForAll([q, r], z3.Implies(z3.And(0 <= q, q < r, r < n), p(q) < p(r)))
+    return [('lower.base', [rng, n > 0], p(0) >= 0),
+            ('lower.step', [rng, mono, 0 <= m, m + 1 < n, p(m) >= m], p(m + 1) >= m + 1),
+            ('upper.base', [rng, n > 0], p(n - 1) <= n - 1),
+            ('upper.step', [rng, mono, 0 <= m, m + 1 < n, p(m + 1) <= m + 1], p(m) <= m),
+            ('monotone_from_sorting', [], z3.BoolVal(True))]
+
+
+Lemma(['C05', 'C17'], 'increasing_bijection_is_identity', _incr_bijection,
+      doc='justifies the argsort model fact: for strictly increasing keys the sorting permutation is the identity')
